@@ -332,7 +332,7 @@ def main(chk):
                 'acceptance correction on/off) — all columns compared with the Lean model run on Float; (c) real xpbin PCUBE files (DU, weights, acceptcorr, MC energy; an empty bin) '
                 'against the published formulae written independently with the response files named in the file; (d) the weight-scheme guard. non-trivial = I > 1 with a non-zero Stokes vector / ≥ 3 events')
     chk.assumptions = TRUSTED
-    chk.lean(['IxpeVerif.Props.C02'], ['calculate_polarization', 'calculate_stokes_errors', 'calculate_mdp99', 'calculate_n_eff'])
+    chk.lean(['IxpeVerif.Props.C02', 'IxpeVerif.Props.Audit.C02'], ['calculate_polarization', 'calculate_stokes_errors', 'calculate_mdp99', 'calculate_n_eff'])
     run_bins(chk, 600 if chk.tier == 'quick' else 20000, 'C02-bins')
     run_events(chk, 40 if chk.tier == 'quick' else 800, 'C02-events')
     run_files(chk, 'C02-files')
